@@ -28,8 +28,7 @@ func (m *Module) Init(s *models.Session, p *models.Participant) {
 
 	state, ok := s.ModuleState(m.Name())
 	if !ok {
-		state = &State{SpatialPartition: NewRegularGrid(1, 1, 2)}
-		s.SetModuleState(m.Name(), state)
+		state = s.LoadOrStoreModuleState(m.Name(), &State{SpatialPartition: NewRegularGrid(1, 1, 2)})
 	}
 	m.state = state.(*State)
 }
